@@ -9,20 +9,20 @@ import (
 	"encoding/base64"
 	"encoding/binary"
 	"encoding/hex"
-	"math/bits"
-	"path"
-	"unicode"
-	"unicode/utf8"
 	"errors"
 	"fmt"
 	"iter"
 	"maps"
+	"math/bits"
+	"path"
 	"slices"
 	"sort"
 	"strconv"
 	"strings"
 	"sync"
 	"sync/atomic"
+	"unicode"
+	"unicode/utf8"
 
 	"berty.tech/go-ipfs-log/internal/vx"
 )
